@@ -330,7 +330,10 @@ def hook_init(call):
                 continue
             z = d[:, 1] / d[:, 0]
             sc = r + abs(cz)
-            if not mon.judge(float(np.max(np.abs(np.abs(z[:3] - cz) - r)) / sc), 1e-9,
+            # a centre given on the sphere near the north pole is an
+            # ill-conditioned affine number (relative error ~ eps (1+|c|^2))
+            tol_c = 1e-9 + (4e-15 * (1.0 + abs(cz) ** 2) if coords == "spherical" else 0.0)
+            if not mon.judge(float(np.max(np.abs(np.abs(z[:3] - cz) - r)) / sc), tol_c,
                              "CP1Disk.__init__/boundary-not-on-circle/%s" % cls,
                              "a stored boundary point is not at distance `rad` from `center`", c):
                 continue
@@ -999,7 +1002,9 @@ def wl_disks(run, rng, idx):
             C_, R_ = np.asarray(cp_[0]), np.asarray(cp_[1])
             if C_.shape == shape + (2,) and R_.shape == shape:
                 err = np.maximum(np.abs(C_[..., 0] + 1j * C_[..., 1] - c), np.abs(R_ - r)) / sc
-                mon.judge(float(np.max(err)) if err.size else 0.0, 1e-9,
+                tol_c = 1e-9 + (4e-15 * float(np.max(1.0 + np.abs(c) ** 2)) if coords == "spherical" and c.size
+                                else 0.0)
+                mon.judge(float(np.max(err)) if err.size else 0.0, tol_c,
                           "disk-roundtrip/circle_parameters-differs/affine",
                           "CP1Disk(c, r).circle_parameters() != (c, r)", dict(case, reported=[C_, R_]))
             else:
